@@ -266,9 +266,22 @@ func (p *Prog) VerifyFunction(fn *ssa.Function, fc *FuncContract, split *int, wa
 		o := e.oblig(st, "cover", "requires-satisfiable", True, fn.Pos(), nil, nil)
 		o.IsCover = true
 	}
+	if fc != nil {
+		for _, as := range fc.Asserts {
+			as.Matched = 0
+		}
+	}
 	rets := e.encodeBody(fr, st, args, fvs)
 	if e.failed != nil {
 		return e
+	}
+	if fc != nil {
+		for _, as := range fc.Asserts {
+			if as.Matched == 0 {
+				e.failed = fmt.Errorf("%s:%d: assert before %q matches no call in %s any more", as.Clause.File, as.Clause.Line, as.Key, e.Unit)
+				return e
+			}
+		}
 	}
 	for ri, r := range rets {
 		rlabel := fmt.Sprintf("ret%d", ri+1)
@@ -442,7 +455,7 @@ func (e *Enc) frameObligations(fr *Frame, st *State, fc *FuncContract, pbind map
 				switch t.kind {
 				case "loc":
 					for _, lf := range e.P.W.Leaves(t.typ) {
-						if heapName(lf.Sort) != n {
+						if heapNameT(lf.Sort, lf.Type) != n {
 							continue
 						}
 						tl := t.loc
@@ -453,7 +466,7 @@ func (e *Enc) frameObligations(fr *Frame, st *State, fc *FuncContract, pbind map
 					}
 				case "elems":
 					for _, lf := range e.P.W.Leaves(t.typ) {
-						if heapName(lf.Sort) != n {
+						if heapNameT(lf.Sort, lf.Type) != n {
 							continue
 						}
 						ex = append(ex, e.inRange(l, SBase(t.slice), SLen(t.slice), lf.Path))
